@@ -8,6 +8,7 @@ What is regenerated from the source text on every run (by walking the Python ast
   * AsyncFIFO.elaborate, the `w_full.eq(..)` statement -> g_w_full : Z -> Z -> Z -> bool  (self._ctr_bits,
                                    produce_w_gry, consume_w_gry) and g_w_full_idx_ok : Z -> bool (its integer indices
                                    are within range(-len, len))
+  * AsyncFIFO.elaborate, everything else -> gst, g_async_step, g_async_out (PART 3)
 Proofs/GenEqAsyncfifo.v proves them equal to Model/AsyncFifo.v (async_ctor, async_buf_ctor, gray_enc, gray_dec,
 gray_full, async_elab_ok).
 
@@ -24,9 +25,44 @@ PART 2 (w_full).  The one assignment to the local `w_full = Signal()` in AsyncFI
 ast; its expression is translated over the locals it reads (each must be declared `Signal(self._ctr_bits ..)`):
   x[k] -> v_bit x (v_idx cb k); x[:k] -> v_upto x (v_idx cb k); == != -> =? / negb; & | of conditions -> && / ||.
 
-NOT translated (the step function async_step / buf_step of the model stays tied to the source by the differential run
-only): the wiring of AsyncFIFO.elaborate / AsyncFIFOBuffered.elaborate (which register is clocked by which domain, the
-FFSynchronizer / AsyncFFSynchronizer submodules, the memory ports, the m.If(r_rst) override block).
+PART 3 (two-clock step).  The body of AsyncFIFO.elaborate after the depth == 0 early return is executed symbolically
+(class Step): every `m.d.comb += ..` / `m.d[self._w_domain] += ..` / `m.d[self._r_domain] += ..` statement (single or list of
+`<signal>.eq(<expr>)`), the `with m.If(<signal>)` / `with m.Else()` blocks (a later assignment overrides under its
+condition), the python-level aliases (do_write, do_read), FFSynchronizer(i, o, o_domain=..) (a chain of <default stages>
+reset_less flops clocked by o_domain, the last one being o; defaults read from cdc.py), AsyncFFSynchronizer(w_rst, o,
+o_domain=..) (flops with init 1, set asynchronously while w_rst is asserted, first flop loads 0), the Memory and its ports
+(write: storage[addr] = data when en, in the write domain; read: data register loaded from storage[addr] when en, in the
+read domain, old contents).  Result:
+  gst                 record of the registers in order of appearance
+  g_async_step : Z -> Z -> Z -> Z -> bool -> bool -> Z -> Z -> Z -> Z -> Z -> gst -> gst
+                      (cb ab lb width  W R  self_w_en self_w_data self_r_en w_rst r_domain_rst  s): combinational signals
+                      as lets in dependency order (a combinational loop is Unsupported), then per register
+                      `if <edge of its domain> then <next> else <current>`; registers not reset_less get the synchronous
+                      domain reset to 0
+  g_async_out  : .. -> Z * Z * Z * Z     (w_rdy, r_rdy, r_level, r_data)
+An assignment truncates (mod 2^width of the target) unless the expression has the target's width class (cb / ab / lb /
+width / 1); ~x is (lnot x) mod 2^len(x); _gray_encode / _gray_decode calls become the generated g_gray_encode /
+g_gray_decode at the argument's width.  Trusted readings: the widths of the interface signals (SELF_W, declared in
+FIFOInterface.__init__) and memory ports (PORT_W) are parameters (lemma: cb = n + 1, ab = n, lb = alvl_bits n); all
+initial values are 0 (1 for the AsyncFFSynchronizer flops); both domains have synchronous resets.
+Whitelisted by exact text: `m = Module()`, the depth == 0 early return, `w_rst = ResetSignal(domain=self._w_domain,
+allow_reset_less=True)` (becomes the input w_rst), the `if platform == "formal"` Assume block (no hardware), `return m`.
+
+NOT translated (buf_step of the model stays tied to the source by the differential run only): AsyncFIFOBuffered.elaborate;
+the bodies of FFSynchronizer.elaborate / AsyncFFSynchronizer.elaborate (read as primitives, see unit cdc).
+
+Mutation evidence for PART 3 (same procedure):
+  produce_w_bin + do_write -> -; r_empty == -> !=; produce_cdc o_domain r -> w; w_port.addr [:-1] -> [:-2];
+  r_port.addr consume_r_nxt -> consume_r_bin; w_rdy ~w_full -> w_full; consume_r_gry override under m.If(r_rst) dropped;
+  w_level domain w -> r; produce_w_gry encode(nxt) -> encode(bin); r_port.en 1 -> do_read; consume_r_bin loses reset_less;
+  rst_cdc o_domain r -> w; Else self.r_rst.eq(0) -> eq(1); If(r_rst) r_empty.eq(1) -> eq(0)
+                                                                                   -> gen_async_step_eq no longer compiles
+  r_level operands swapped                                                         -> gen_async_out_eq no longer compiles
+  cdc.py FFSynchronizer stages=2 -> 3; w_rst ResetSignal domain w -> r            -> Unsupported
+  harmless: rename do_write/do_read; swap two entries of a comb list; swap the w_level / r_level statements
+                                                                                   -> lemmas still compile
+  harmless: produce_w_gry sync statement moved before the FFSynchronizer construction (register order of gst changes)
+                                                                                   -> gen_async_step_eq breaks: acceptable false alarm
 
 Mutation evidence (scratch worktree of /repo, one edit of fifo.py at a time, then regenerate + compile GenEqAsyncfifo.v):
   _gray_encode val[1:] -> val[2:]                                                  -> gen_gray_encode_eq no longer compiles
@@ -323,6 +359,357 @@ def comb_flag(tree, target, gname):
             f"(* the integer indices of that expression are in range(-len, len) (otherwise IndexError at elaboration) *)\n"
             f"Definition {gname}_idx_ok (cb : Z) : bool :=\n  {ok}.\n\n")
 
+# ========================================================================================== PART 3: the two-clock step of AsyncFIFO.elaborate
+STEP_PRE = ["m = Module()",
+            "if self.depth == 0:\n    m.d.comb += [self.w_rdy.eq(0), self.r_rdy.eq(0)]\n    return m"]
+# the write-domain reset becomes the input w_rst of the generated step (only when the text is exactly this)
+STEP_WRST = "w_rst = ResetSignal(domain=self._w_domain, allow_reset_less=True)"
+STEP_FORMAL = ("if platform == 'formal':\n    with m.If(Initial()):\n"
+               "        m.d.comb += Assume(produce_w_gry == produce_w_bin ^ produce_w_bin[1:])\n"
+               "        m.d.comb += Assume(consume_r_gry == consume_r_bin ^ consume_r_bin[1:])")
+# widths of the interface signals (declared in FIFOInterface.__init__, outside the translated function)
+SELF_W = {"w_rdy": "1", "w_en": "1", "w_data": "width", "w_level": "lb",
+          "r_rdy": "1", "r_en": "1", "r_data": "width", "r_level": "lb", "r_rst": "1"}
+STEP_INPUTS = ["self_w_en", "self_w_data", "self_r_en", "w_rst", "r_domain_rst"]
+PORT_W = {"addr": "ab", "data": "width", "en": "1"}
+
+
+class Step:
+    def __init__(self, tree):
+        self.fdef = find_function(tree, "AsyncFIFO.elaborate")
+        self.w = {}                  # key -> width symbol
+        self.rl = set()              # reset_less registers
+        for k in STEP_INPUTS[:3]:
+            self.w[k] = SELF_W[k[5:]]
+        self.alias = {}              # python-level names bound to expressions
+        self.comb = {}               # key -> [(conds, value ast)]
+        self.sync = {}               # key -> (domain, [(conds, value ast)])
+        self.order = []              # registers in order of discovery: (key, kind, data)
+        self.ports = {}              # w_port / r_port -> domain
+        self.mem = None
+        ff = find_function(tree_cdc(), "FFSynchronizer.__init__")
+        kw = dict(zip([a.arg for a in ff.args.kwonlyargs], ff.args.kw_defaults))
+        self.stages = int_const(kw.get("stages"))
+        if self.stages != 2:
+            fail(ff, "FFSynchronizer default stages (the model has 2-stage chains)")
+        if ast.unparse(kw.get("reset_less")) != "True":
+            fail(ff, "FFSynchronizer default reset_less")
+        af = find_function(tree_cdc(), "AsyncFFSynchronizer.__init__")
+        kw = dict(zip([a.arg for a in af.args.kwonlyargs], af.args.kw_defaults))
+        self.astages = int_const(kw.get("stages"))
+        if self.astages != 2 or ast.unparse(kw.get("async_edge")) != "'pos'":
+            fail(af, "AsyncFFSynchronizer defaults (stages=2, async_edge='pos')")
+
+    # ---------------------------------------------------------------- collection
+    def key(self, node, declare_ok=False):
+        if isinstance(node, ast.Name):
+            return node.id
+        if isinstance(node, ast.Attribute) and isinstance(node.value, ast.Name):
+            if node.value.id == "self" and node.attr in SELF_W:
+                k = "self_" + node.attr
+                self.w[k] = SELF_W[node.attr]
+                return k
+            if node.value.id in self.ports and node.attr in PORT_W:
+                k = node.value.id + "_" + node.attr
+                self.w[k] = PORT_W[node.attr]
+                return k
+        fail(node, "signal reference")
+
+    def domain(self, node):
+        t = ast.unparse(node)
+        d = {"m.d.comb": "comb", "m.d[self._w_domain]": "W", "m.d[self._r_domain]": "R"}.get(t)
+        if d is None:
+            fail(node, "domain")
+        return d
+
+    def dom_kw(self, call, name):
+        if len(call.keywords) != 1 or call.keywords[0].arg != name:
+            fail(call, f"expected the single keyword {name}=")
+        t = ast.unparse(call.keywords[0].value)
+        d = {"self._w_domain": "W", "self._r_domain": "R"}.get(t)
+        if d is None:
+            fail(call, "domain keyword")
+        return d
+
+    def add_assign(self, dom, call, conds):
+        if not (isinstance(call, ast.Call) and isinstance(call.func, ast.Attribute) and call.func.attr == "eq"
+                and len(call.args) == 1 and not call.keywords):
+            fail(call, "expected <signal>.eq(<expr>)")
+        k = self.key(call.func.value)
+        if k in STEP_INPUTS or (k not in self.w):
+            fail(call, f"assignment to {k}")
+        if dom == "comb":
+            if k in self.sync:
+                fail(call, f"{k} driven from two domains")
+            self.comb.setdefault(k, []).append((conds, call.args[0]))
+        else:
+            if k in self.comb or (k in self.sync and self.sync[k][0] != dom):
+                fail(call, f"{k} driven from two domains")
+            if k not in self.sync:
+                self.sync[k] = (dom, [])
+                self.order.append((k, "reg", None))
+            self.sync[k][1].append((conds, call.args[0]))
+
+    def add_stmt(self, s, conds):
+        if not (isinstance(s, ast.AugAssign) and isinstance(s.op, ast.Add)):
+            fail(s, "statement")
+        dom = self.domain(s.target)
+        vals = s.value.elts if isinstance(s.value, ast.List) else [s.value]
+        for v in vals:
+            self.add_assign(dom, v, conds)
+
+    def collect(self):
+        body = list(self.fdef.body)
+        if [ast.unparse(s) for s in body[:2]] != STEP_PRE:
+            fail(self.fdef, "AsyncFIFO.elaborate: prologue")
+        if ast.unparse(body[-1]) != "return m" or ast.unparse(body[-2]) != STEP_FORMAL:
+            fail(self.fdef, "AsyncFIFO.elaborate: epilogue (formal block, return m)")
+        last_if = None
+        for s in body[2:-2]:
+            t = ast.unparse(s)
+            if t == STEP_WRST and "w_rst" not in self.w:
+                self.w["w_rst"] = "1"
+                last_if = None
+                continue
+            if isinstance(s, ast.With):
+                if len(s.items) != 1 or s.items[0].optional_vars is not None:
+                    fail(s, "with form")
+                c = s.items[0].context_expr
+                ct = ast.unparse(c)
+                if isinstance(c, ast.Call) and ast.unparse(c.func) == "m.If" and len(c.args) == 1 and not c.keywords \
+                        and isinstance(c.args[0], ast.Name):
+                    cond = c.args[0].id
+                    if cond not in self.w:
+                        fail(s, "m.If condition is not a known signal")
+                    for b in s.body:
+                        self.add_stmt(b, ((cond, True),))
+                    last_if = cond
+                    continue
+                if ct == "m.Else()" and last_if is not None:
+                    for b in s.body:
+                        self.add_stmt(b, ((last_if, False),))
+                    last_if = None
+                    continue
+                fail(s, "with form")
+            last_if = None
+            if isinstance(s, ast.AugAssign):
+                self.add_stmt(s, ())
+                continue
+            if isinstance(s, ast.Assign) and len(s.targets) == 1 and isinstance(s.targets[0], ast.Name):
+                n, v = s.targets[0].id, s.value
+                vt = ast.unparse(v)
+                if n in self.w or n in self.alias or n in self.ports:
+                    fail(s, f"{n} bound twice")
+                if vt in ("Signal(self._ctr_bits)", "Signal(self._ctr_bits, reset_less=True)"):
+                    self.w[n] = "cb"
+                    if "reset_less=True" in vt:
+                        self.rl.add(n)
+                    continue
+                if vt == "Signal()":
+                    self.w[n] = "1"
+                    continue
+                if isinstance(v, ast.BinOp):
+                    self.alias[n] = v
+                    continue
+                if isinstance(v, ast.Call) and ast.unparse(v.func) in ("storage.write_port", "storage.read_port") \
+                        and self.mem is not None and not v.args:
+                    d = self.dom_kw(v, "domain")
+                    kind = ast.unparse(v.func).split(".")[1]
+                    if (kind, d) not in (("write_port", "W"), ("read_port", "R")):
+                        fail(s, "memory port domain")
+                    self.ports[n] = kind
+                    if kind == "read_port":
+                        self.w[n + "_data"] = "width"
+                        self.order.append((n + "_data", "rport", n))
+                    else:
+                        self.order.append(("storage", "mem", n))
+                    continue
+            if isinstance(s, ast.Assign) and len(s.targets) == 2 and isinstance(s.targets[0], ast.Name) \
+                    and ast.unparse(s.targets[1]) == "m.submodules." + s.targets[0].id and isinstance(s.value, ast.Call):
+                n, v = s.targets[0].id, s.value
+                if ast.unparse(v.func) == "FFSynchronizer" and len(v.args) == 2 \
+                        and all(isinstance(a, ast.Name) for a in v.args):
+                    i, o = v.args[0].id, v.args[1].id
+                    d = self.dom_kw(v, "o_domain")
+                    if self.w.get(i) is None or self.w.get(i) != self.w.get(o) or o in self.sync or o in self.comb:
+                        fail(s, "FFSynchronizer ports")
+                    prev = i
+                    for st in range(self.stages):
+                        k = o if st == self.stages - 1 else f"{n}_{st}"
+                        self.w[k] = self.w[i]
+                        self.sync[k] = (d, None)
+                        self.rl.add(k)
+                        self.order.append((k, "ff", prev))
+                        prev = k
+                    continue
+                if ast.unparse(v.func) == "AsyncFFSynchronizer" and len(v.args) == 2 \
+                        and all(isinstance(a, ast.Name) for a in v.args):
+                    i, o = v.args[0].id, v.args[1].id
+                    d = self.dom_kw(v, "o_domain")
+                    if i != "w_rst" or self.w.get(i) != "1" or self.w.get(o) != "1" or o in self.sync or o in self.comb:
+                        fail(s, "AsyncFFSynchronizer ports")
+                    prev = None
+                    for st in range(self.astages):
+                        k = o if st == self.astages - 1 else f"{n}_{st}"
+                        self.w[k] = "1"
+                        self.sync[k] = (d, None)
+                        self.order.append((k, "aff", (i, prev)))
+                        prev = k
+                    continue
+                if ast.unparse(v) == "Memory(shape=self.width, depth=self.depth, init=[])" and n == "storage" \
+                        and self.mem is None:
+                    self.mem = n
+                    continue
+            fail(s, "AsyncFIFO.elaborate statement")
+        if "w_rst" not in self.w:
+            fail(self.fdef, "AsyncFIFO.elaborate: w_rst")
+        if sorted(self.ports.values()) != ["read_port", "write_port"]:
+            fail(self.fdef, "AsyncFIFO.elaborate: memory ports")
+
+    # ---------------------------------------------------------------- expressions
+    def ref(self, node):
+        k = self.key(node)
+        if k in self.alias:
+            return self.expr(self.alias[k])
+        if k not in self.w:
+            fail(node, f"unknown signal {k}")
+        if k in self.comb:
+            self.emit_comb(k, node)
+        elif not (k in self.sync or k in STEP_INPUTS or any(k == r for r, _, _ in self.order)):
+            fail(node, f"{k} is read but never driven")
+        return k, self.w[k]
+
+    def sigref(self, node):
+        if not isinstance(node, (ast.Name, ast.Attribute)) or (isinstance(node, ast.Name) and node.id in self.alias):
+            fail(node, "operand must be a signal")
+        return self.ref(node)
+
+    def expr(self, node):
+        if isinstance(node, (ast.Name, ast.Attribute)):
+            return self.ref(node)
+        k = int_const(node)
+        if k is not None and k in (0, 1):
+            return str(k), None
+        if isinstance(node, ast.BinOp) and isinstance(node.op, (ast.BitAnd, ast.Add, ast.Sub)):
+            a, wa = self.expr(node.left)
+            b, wb = self.expr(node.right)
+            if isinstance(node.op, ast.BitAnd):
+                return f"(Z.land {a} {b})", (wa if wa == wb else None)
+            return f"({'Z.add' if isinstance(node.op, ast.Add) else 'Z.sub'} {a} {b})", None
+        if isinstance(node, ast.UnaryOp) and isinstance(node.op, ast.Invert):
+            a, wa = self.expr(node.operand)
+            if wa is None:
+                fail(node, "~ of an operand of unknown width")
+            return f"((Z.lnot {a}) mod 2 ^ {wa})", wa
+        if isinstance(node, ast.Compare) and len(node.ops) == 1 and isinstance(node.ops[0], (ast.Eq, ast.NotEq)):
+            a, _ = self.expr(node.left)
+            b, _ = self.expr(node.comparators[0])
+            t = f"({a} =? {b})"
+            return f"(Z.b2z {t if isinstance(node.ops[0], ast.Eq) else '(negb ' + t + ')'})", "1"
+        if isinstance(node, ast.Subscript):
+            v, wv = self.sigref(node.value)
+            sl = node.slice
+            if isinstance(sl, ast.Slice):
+                k = int_const(sl.upper) if sl.upper is not None else None
+                if sl.lower is not None or sl.step is not None or k is None:
+                    fail(node, "slice form (only [:k])")
+                return f"(v_upto {v} (v_idx {wv} {z(k)}))", None
+            k = int_const(sl)
+            if k is None:
+                fail(node, "index is not an integer constant")
+            return f"(v_bit {v} (v_idx {wv} {z(k)}))", "1"
+        if isinstance(node, ast.Call) and isinstance(node.func, ast.Name) and not node.keywords and len(node.args) == 1 \
+                and node.func.id in ("_gray_encode", "_gray_decode"):
+            v, wv = self.sigref(node.args[0])
+            return f"(g{node.func.id} {wv} {v})", wv     # result as wide as the argument (val ^ val[1:], Cat of len bits)
+        fail(node, "step expression")
+
+    def assigned(self, k, assigns, default):
+        """value driven onto the signal k (width self.w[k]) by the assignments, later ones taking priority"""
+        cur = default
+        for conds, v in assigns:
+            e, we = self.expr(v)
+            if we != self.w[k]:
+                e = f"({e} mod 2 ^ {self.w[k]})"
+            for c, pol in conds:
+                cn, _ = self.ref(ast.Name(id=c, lineno=v.lineno))
+                test = f"(negb ({cn} =? 0))"
+                if cur is None:
+                    cur = "0"
+                e = f"(if {test} then {e} else {cur})" if pol else f"(if {test} then {cur} else {e})"
+            cur = e
+        return cur
+
+    def emit_comb(self, k, node):
+        if k in self.done:
+            return
+        if k in self.visiting:
+            fail(node, f"combinational loop through {k}")
+        self.visiting.add(k)
+        e = self.assigned(k, self.comb[k], None)
+        self.visiting.discard(k)
+        self.done.add(k)
+        self.lets.append(f"let {k} := {e} in")
+
+    # ---------------------------------------------------------------- generation
+    def generate(self):
+        self.collect()
+        self.lets, self.done, self.visiting = [], set(), set()
+        for k in self.comb:
+            self.emit_comb(k, self.fdef)
+        nxt = []
+        for k, kind, data in self.order:
+            if kind == "reg":
+                d, assigns = self.sync[k]
+                e = self.assigned(k, assigns, k)
+                if k not in self.rl:     # synchronous domain reset to the initial value 0
+                    e = f"(if negb ({'w_rst' if d == 'W' else 'r_domain_rst'} =? 0) then 0 else {e})"
+            elif kind == "aff":          # flops with init 1, asynchronously set while i is asserted, first flop loads 0
+                d = self.sync[k][0]
+                e = f"(if negb ({data[0]} =? 0) then 1 else {data[1] or '0'})"
+            elif kind == "ff":
+                d = self.sync[k][0]
+                e = data
+            elif kind == "mem":
+                d = "W"
+                e = f"(if negb ({data}_en =? 0) then lset storage {data}_addr {data}_data else storage)"
+                for f in ("en", "addr", "data"):
+                    if f"{data}_{f}" not in self.comb:
+                        fail(self.fdef, f"{data}.{f} is not driven")
+            else:
+                d = "R"
+                e = f"(if negb ({data}_en =? 0) then nth (Z.to_nat {data}_addr) storage 0 else {k})"
+                for f in ("en", "addr"):
+                    if f"{data}_{f}" not in self.comb:
+                        fail(self.fdef, f"{data}.{f} is not driven")
+            nxt.append(f"(if {d} then {e} else {k})")
+        regs = [k for k, _, _ in self.order]
+        fields = "; ".join(f"g_{k} : {'list Z' if k == 'storage' else 'Z'}" for k in regs)
+        out = ("(* registers of AsyncFIFO.elaborate in order of appearance (FFSynchronizer <name>: flops <name>_0 .. and its output;\n"
+               "   AsyncFFSynchronizer <name>: flops <name>_0 .. and its output; Memory: storage and the read port's data register) *)\n"
+               f"Record gst := mkG {{ {fields} }}.\n\n")
+        aff = {k: data[0] for k, kind, data in self.order if kind == "aff"}
+        pre = "\n  ".join((f"let {k} := (if negb ({aff[k]} =? 0) then 1 else g_{k} s) in" if k in aff
+                           else f"let {k} := g_{k} s in") for k in regs)
+        out += ("(* one event: W / R = rising edge of the write / read clock; cb ab lb width = widths of the counters, memory address,\n"
+                "   level outputs, data; w_rst / r_domain_rst = the (synchronous) resets of the write / read domain, applied before the edge *)\n"
+                f"Definition g_async_step (cb ab lb width : Z) (W R : bool) ({' '.join(STEP_INPUTS)} : Z) (s : gst) : gst :=\n  "
+                + pre + "\n  " + "\n  ".join(self.lets) + "\n  mkG\n    " + "\n    ".join(nxt) + ".\n\n")
+        outs = [k for k in ("self_w_rdy", "self_r_rdy", "self_r_level", "self_r_data") if k in self.comb]
+        if len(outs) != 4:
+            fail(self.fdef, "interface outputs not driven combinationally")
+        out += ("(* combinational interface outputs (w_rdy, r_rdy, r_level, r_data) before the event *)\n"
+                f"Definition g_async_out (cb ab lb width : Z) ({' '.join(STEP_INPUTS)} : Z) (s : gst) : Z * Z * Z * Z :=\n  "
+                + pre + "\n  " + "\n  ".join(self.lets) + "\n  (" + ", ".join(outs) + ").\n\n")
+        return out
+
+
+def tree_cdc():
+    root = os.environ.get("VERIF_REPO", "/repo")
+    with open(os.path.join(root, "amaranth/lib/cdc.py")) as f:
+        return ast.parse(f.read())
+
+
 # ========================================================================================== unit
 def unit():
     root = os.environ.get("VERIF_REPO", "/repo")
@@ -334,6 +721,7 @@ def unit():
     out += helper(tree, "_gray_encode", "g_gray_encode")
     out += helper(tree, "_gray_decode", "g_gray_decode")
     out += comb_flag(tree, "w_full", "g_w_full")
+    out += Step(tree).generate()
     return {"AsyncFifoGen.v": out}
 
 
